@@ -435,7 +435,7 @@ class ModifyCache:
             self.block_ordering[sect].add_detached_blocks(
                 sorted(
                     sect.byte_blocks,
-                    key=lambda b: (cast(int, b.address), b.size != 0),
+                    key=lambda b: (cast(int, b.address), b.size != 0, b.size),
                 )
             )
 
